@@ -956,30 +956,13 @@ func rulePolicyValueNormalised(w *core.World, r *core.Report) {
 		fa, ok := a.(*ssa.FieldAddr)
 		return ok && core.FieldName(fa) == "KeyExists" && strings.HasSuffix(core.TypeName(fa.X.Type()), "ReplayConfig")
 	}
-	live := map[*ssa.BasicBlock]bool{}
-	for _, b := range f.Blocks {
-		for _, in := range b.Instrs {
-			if st, ok := in.(*ssa.Store); ok && isKeyExistsAddr(st.Addr) {
-				live[b] = true
-			}
-			if ld, ok := in.(*ssa.UnOp); ok && ld.Op == token.MUL && isKeyExistsAddr(ld.X) {
-				live[b] = true
-			}
+	live := liveBlocks(f, func(in ssa.Instruction) bool {
+		if st, ok := in.(*ssa.Store); ok && isKeyExistsAddr(st.Addr) {
+			return true
 		}
-	}
-	for changed := true; changed; {
-		changed = false
-		for _, b := range f.Blocks {
-			if live[b] {
-				continue
-			}
-			for _, sc := range b.Succs {
-				if live[sc] {
-					live[b], changed = true, true
-				}
-			}
-		}
-	}
+		ld, ok := in.(*ssa.UnOp)
+		return ok && ld.Op == token.MUL && isKeyExistsAddr(ld.X)
+	})
 	constList := func(v ssa.Value) bool {
 		// a literal []string{…} of policy words, or a package-level list/map of them
 		if els, ok := core.VariadicElems(v); ok && len(els) > 0 {
@@ -1046,6 +1029,12 @@ func rulePolicyValueNormalised(w *core.World, r *core.Report) {
 				}
 				if e, ok := cond.(*ssa.Extract); ok && e.Index == 1 && fct.Val {
 					if lk, isLk := e.Tuple.(*ssa.Lookup); isLk && lk.CommaOk && constMapKeysIn(w, lk.X, policies) {
+						member[term(lk.Index)] = true
+					}
+				}
+				if lk, ok := cond.(*ssa.Lookup); ok && !lk.CommaOk && fct.Val {
+					// a set written as map[string]bool: true only for a key of the literal
+					if bt, isB := lk.Type().Underlying().(*types.Basic); isB && bt.Kind() == types.Bool && constMapKeysIn(w, lk.X, policies) {
 						member[term(lk.Index)] = true
 					}
 				}
